@@ -16,7 +16,8 @@
 (***************************************************************************)
 EXTENDS Integers, Sequences, TLC, Json
 CONSTANTS Roots,      \* absolute locations of a copy of the sources
-          Cwds,       \* "src": the directory of the file, "parent": one above, "far": unrelated
+          Cwds,       \* "src": the directory of the file, "parent": one above, "far": unrelated; the latter two hold unrelated files
+                      \* named like the program's includes (includes are relative to the including file, never to the working directory)
           Spells,     \* "rel" / "dot" (./ and ../ detours) / "abs": how the file argument is written
           Outs,       \* "default" (no -out), "rel", "abs", "nested", "slash" (trailing slash)
           Pres,       \* "fresh": empty output directory, "again": generated there once before, "stale": the directory holds the
